@@ -5,6 +5,7 @@ import (
 	"go/ast"
 	"go/token"
 	"go/types"
+	"sort"
 	"strings"
 )
 
@@ -209,6 +210,57 @@ func checkC17(c *Ctx) {
 	r := g.gate(eq, acc, nil, -1)
 	_ = r
 	c17RootsFixpoint(c)
+	c17FileFilter(c)
+}
+
+// c17FileFilter: the per-package file filter of the loader and the root import
+// scan of tidy must agree that a file marked @ignore() never contributes
+// imports, in the main module as anywhere else; tool and test files count only
+// in the main module.
+func c17FileFilter(c *Ctx) {
+	f := c.fn("internal/mod/modload", "(*loader).shouldIncludePkgFile")
+	cf := newCaseFn(c, f)
+	var ign, main string
+	var suffix []string
+	for k := range cf.atoms() {
+		switch {
+		case strings.HasPrefix(k, "buildattr.ShouldIgnoreFile("):
+			ign = k
+		case strings.Contains(k, "mainModule.Path()") && strings.Contains(k, " == "):
+			main = k
+		case strings.HasPrefix(k, "strings.HasSuffix(") && (strings.Contains(k, "_tool.cue") || strings.Contains(k, "_test.cue")):
+			suffix = append(suffix, k)
+		}
+	}
+	sort.Strings(suffix)
+	if ign == "" || main == "" || len(suffix) != 2 {
+		c.check("filter.ignored-files-never-count", f.Name, f.Decl.Pos(), false,
+			fmt.Sprintf("anchor: shouldIncludePkgFile must test buildattr.ShouldIgnoreFile, the main module path and the _tool/_test suffixes (found %q, %q, %v)", ign, main, suffix))
+		return
+	}
+	cf.checkTable("filter.ignored-files-never-count", []caseRow{
+		{name: "ignored/main-module", truth: map[string]bool{ign: true, main: true}, want: []string{"false"}},
+		{name: "ignored/dependency", truth: map[string]bool{ign: true, main: false}, want: []string{"false"}},
+	}, "a file marked @ignore() must be excluded whichever module it is in (tidy's root import scan drops it too; the two sites must agree or `cue mod tidy` adds an unused dependency that CheckTidy then demands)")
+	cf.checkTable("filter.main-module-and-tool-files", []caseRow{
+		{name: "main-module", truth: map[string]bool{ign: false, main: true}, want: []string{"true"}},
+		{name: "dependency/tool-or-test-file-1", truth: map[string]bool{ign: false, main: false, suffix[0]: true, suffix[1]: false}, want: []string{"false"}},
+		{name: "dependency/tool-or-test-file-2", truth: map[string]bool{ign: false, main: false, suffix[0]: false, suffix[1]: true}, want: []string{"false"}},
+	}, "every non-ignored file of the main module counts; tool and test files of dependencies do not")
+	// the root scan applies the same predicate
+	ti := c.fn("internal/mod/modload", "tidy")
+	n := 0
+	for _, fn := range c.funcs(c.pkg("internal/mod/modload")) {
+		ast.Inspect(fn.Body, func(x ast.Node) bool {
+			if call, ok := x.(*ast.CallExpr); ok && calleeName(fn.Info(), call) == "internal/buildattr.ShouldIgnoreFile" {
+				n++
+			}
+			return true
+		})
+	}
+	_ = ti
+	c.check("filter.both-sites-consult-ignore", "internal/mod/modload", f.Decl.Pos(), n >= 2,
+		fmt.Sprintf("both the per-package filter and the root import scan must consult buildattr.ShouldIgnoreFile (found %d call sites)", n))
 }
 
 // c17RootsFixpoint: updateRoots iterates "each root is at the selected version
